@@ -426,7 +426,11 @@ func c15ScanContent(p *Prog, ls *Lockset, r *Report) {
 			}
 		}
 		// the scan may sit in an extracted look-up helper or in the predicate handed to a library search
-		allCmp := func(g *ssa.Function) {
+		var allCmpD func(g *ssa.Function, d int)
+		allCmpD = func(g *ssa.Function, d int) {
+			if g == nil || g.Blocks == nil || d > 2 {
+				return
+			}
 			for _, gb := range g.Blocks {
 				for _, ins := range gb.Instrs {
 					if bo, ok := ins.(*ssa.BinOp); ok && (bo.Op == token.EQL || bo.Op == token.NEQ) {
@@ -437,9 +441,16 @@ func c15ScanContent(p *Prog, ls *Lockset, r *Report) {
 							}
 						}
 					}
+					// a predicate method of the item type ("item.matches(level, handler)")
+					if hc, ok := ins.(*ssa.Call); ok {
+						if h := hc.Call.StaticCallee(); h != nil && h.Blocks != nil && strings.HasPrefix(fnPkgPath(h), repoMod) && !isExportedFn(originOf(h)) {
+							allCmpD(h, d+1)
+						}
+					}
 				}
 			}
 		}
+		allCmp := func(g *ssa.Function) { allCmpD(g, 0) }
 		forEachCallOwn(fn, func(site ssa.CallInstruction) {
 			c, ok := site.(*ssa.Call)
 			if !ok {
@@ -459,10 +470,19 @@ func c15ScanContent(p *Prog, ls *Lockset, r *Report) {
 			case p.helperCandidate(callee) && len(ls.accessesIn(F("events.handlers"), callee)) > 0:
 				allCmp(callee)
 			case usesList && fnPkgPath(callee) == "slices" && (originName(callee) == "ContainsFunc" || originName(callee) == "IndexFunc"):
-				if mc, ok := c.Call.Args[len(c.Call.Args)-1].(*ssa.MakeClosure); ok {
-					if cl, ok := mc.Fn.(*ssa.Function); ok {
-						allCmp(cl)
+				for _, pf := range predicateFunctions(c.Call.Args[len(c.Call.Args)-1], 0) {
+					allCmp(pf)
+				}
+			default:
+				// a predicate applied to an element of the list inside the scan loop
+				onElem := false
+				for _, arg := range argsWithRecv(&c.Call) {
+					if strings.Contains(Path(arg), "."+FN("events.handlers")+"[]") {
+						onElem = true
 					}
+				}
+				if onElem && callee.Blocks != nil && strings.HasPrefix(fnPkgPath(callee), repoMod) && !isExportedFn(originOf(callee)) {
+					allCmp(callee)
 				}
 			}
 		})
